@@ -195,7 +195,7 @@ def scenarios(tier, seed):
                             continue
                         sc = apply_fault(base, f, rng)
                         if f == "none" and rng.random() < 0.5:      # a legal sub-rectangle given by limits counted from the upper end is not a fault
-                            sc["subgrid"] = rng.choice([[1, -1, 1, -1], [2, -2, 1, -2], [1, -2, 2, -1]])
+                            sc["subgrid"] = rng.choice([[1, -1, 1, -1], [1, -2, 1, -2], [1, -2, 1, -1]])      # (the release cells stay inside the valid region)
                         sc["cls"] = dict(fault=f, rev=rev, multifile=ncut > 0, cont=cont)
                         out.append(sc)
     return out
